@@ -30,7 +30,7 @@ func c19Classify(d string) string {
 // properties) cannot raise an alarm here -- only behaviour that depends on the room left can.
 func c19History(v asmVariant, capacity int, ops []asmOp, window, viaClone bool) string {
 	roomy := 224 // the longest short history of the alphabet emits 5 x 33 bytes
-	if len(ops) > 8 {
+	if len(ops) > 8 || hasBigBlock(ops) {
 		roomy = 16384 // the long programs
 	}
 	dry := capacity < 0
@@ -133,7 +133,7 @@ func c19History(v asmVariant, capacity int, ops []asmOp, window, viaClone bool) 
 // buffer that received the calls directly.
 func c19DryClone(v asmVariant, ops []asmOp, split int) string {
 	room := 224
-	if len(ops) > 8 {
+	if len(ops) > 8 || hasBigBlock(ops) {
 		room = 16384
 	}
 	t := newRealEmitter(v, room)
@@ -214,6 +214,15 @@ func c19AppendBounded(v asmVariant, capacity int, ops []asmOp, split int) string
 	return ""
 }
 
+func hasBigBlock(ops []asmOp) bool {
+	for _, op := range ops {
+		if op.name == "EmitBytes(300)" {
+			return true
+		}
+	}
+	return false
+}
+
 func c19Run(h asmHistory) (sig, what string) {
 	ops, err := opsByName(h.Ops)
 	if err != nil {
@@ -268,7 +277,7 @@ func runC19(r *report.Run) {
 			ops[i] = al[k]
 		}
 		// size of the program in a roomy buffer (real emitter)
-		re := newRealEmitter(v, 224)
+		re := newRealEmitter(v, 1024)
 		for _, op := range ops {
 			applyReal(re, op)
 		}
@@ -291,7 +300,24 @@ func runC19(r *report.Run) {
 				}
 			}
 		}
+		capSet := map[int]bool{}
+		if size > 64 {
+			// a large program (a big data block): capacities around every call boundary instead of all of them
+			re2 := newRealEmitter(v, 1024)
+			capSet[-1], capSet[0], capSet[1], capSet[size+1] = true, true, true, true
+			for _, op := range ops {
+				applyReal(re2, op)
+				for d := -3; d <= 1; d++ {
+					if b := re2.Len() + d; b >= 0 {
+						capSet[b] = true
+					}
+				}
+			}
+		}
 		for capacity := -1; capacity <= size+1; capacity++ {
+			if size > 64 && !capSet[capacity] {
+				continue
+			}
 			// shapes: the target as a whole array (len == cap), as a window of a larger one (len < cap), and
 			// the emitter under test being a Clone over the target
 			for shape := 0; shape < 3; shape++ {
@@ -309,7 +335,10 @@ func runC19(r *report.Run) {
 	// SetBase in the middle of a sequence is part of C19's alphabet (and of no other check's: the listings
 	// cannot follow a second base): the nil-target emitter must keep reporting the PC of the buffered one
 	midBase, _ := asmDynamicOp("SetBase($7e2000)")
-	hist, trans, st := asmHistorySearch(depth, variants, visit, r, 0, midBase)
+	// ... and so is a data block of 300 bytes (tables of a few hundred bytes are ordinary; the other checks'
+	// alphabets stop at 33)
+	bigBlock, _ := asmDynamicOp("EmitBytes(300)")
+	hist, trans, st := asmHistorySearch(depth, variants, visit, r, 0, midBase, bigBlock)
 	capCases = st
 	// long programs: capacities around a few instruction boundaries spread over the program, every shape
 	for _, v := range variants {
@@ -353,7 +382,7 @@ func runC19(r *report.Run) {
 	if thorough {
 		// all ten constructor variants one level shallower (the deep pass above runs on one of them:
 		// depth 5 on all ten is 2.7*10^9 (history, capacity) cases, well over an hour on 16 cores)
-		h2, t2, s2 := asmHistorySearch(depth-1, all, visit, r, 0, midBase)
+		h2, t2, s2 := asmHistorySearch(depth-1, all, visit, r, 0, midBase, bigBlock)
 		hist, trans, capCases = hist+h2, trans+t2, capCases+s2
 	}
 	r.Set("states", capCases)
@@ -363,7 +392,7 @@ func runC19(r *report.Run) {
 	r.Set("distinct_nontrivial", capCases-hist)
 	r.Set("histories", hist)
 	r.Set("history_x_capacity_cases", capCases)
-	r.Set("bounds", map[string]interface{}{"history_depth": depth, "alphabet": len(asmAlphabet()) + 1, "constructor_variants": len(variants), "thorough_second_pass": "all 10 constructor variants at depth 4", "capacities": "every capacity from 0 to program size + 1, each as a whole array (len == cap), as a window of a larger canary-filled array (len < cap) and with the emitter under test being a Clone over the target, plus the nil-target (dry-run) emitter"})
+	r.Set("bounds", map[string]interface{}{"history_depth": depth, "alphabet": len(asmAlphabet()) + 2, "constructor_variants": len(variants), "thorough_second_pass": "all 10 constructor variants at depth 4", "capacities": "every capacity from 0 to program size + 1, each as a whole array (len == cap), as a window of a larger canary-filled array (len < cap) and with the emitter under test being a Clone over the target, plus the nil-target (dry-run) emitter"})
 	r.Set("rule", "every call sequence up to the depth x every buffer capacity from 0 to the program's size + 1 and the nil-target emitter: each call runs on a fresh real Emitter and on a twin real Emitter with ample room that receives exactly the accepted calls (the twin tells how many bytes a call needs; nothing is predicted from a model), the target buffer given once as a whole array and once as a window of a larger array whose bytes outside the window must stay untouched; a call that does not fit must panic and leave Bytes/Len/PC/Flags/labels unchanged, the history continues after a refusal, a call that fits must leave the emitter exactly like the twin, Finalize after the history must agree with the twin's, and an Append of a clone (own buffer) into a parent that is 0-2 bytes short must be refused leaving the parent as it was; the nil-target emitter must report the same PC, labels and flags after every call, also when the tail of the history (every split) goes through Clone(nil) and Append; non-trivial = capacity below the program size or nil target (at least one call differs from the roomy run)")
 	r.Sample(asmHistory{Variant: variants[0], Ops: []string{"LDA_abs($1234)", "JSL($123456)", "NOP"}, Capacity: 5})
 	r.Sample(asmHistory{Variant: variants[1], Ops: []string{"SEP(#$20)", "LDA_imm8_b($7F)", "EmitBytes(17)"}, Capacity: -1})
